@@ -3,6 +3,7 @@ mod gen;
 mod mon;
 mod obs;
 mod pool;
+mod replay;
 mod toggle;
 
 use check::*;
@@ -28,6 +29,10 @@ fn build_suite(name: &str, params: &Value) -> Box<dyn Suite + Send + Sync> {
         "seeds" => Box::new(Seeds { seeds: load_seeds(&seeds_path) }),
         "truncations" => Box::new(Truncations::new(load_seeds(&seeds_path), params["stride"].as_u64().unwrap_or(1) as usize)),
         "splices" => Box::new(Splices { seeds: load_seeds(&seeds_path), count: params["count"].as_u64().unwrap(), seed: params["seed"].as_u64().unwrap_or(0) }),
+        "grid" => {
+            let nums = |v: &Value| -> Vec<usize> { v.as_array().map(|a| a.iter().map(|x| x.as_u64().unwrap() as usize).collect()).unwrap_or_default() };
+            Box::new(Grid { kinds: strs(&params["kinds"]), lens: nums(&params["lens"]), rems: nums(&params["rems"]), offsets: nums(&params["offsets"]), delims: strs(&params["delims"]), tails: strs(&params["tails"]) })
+        }
         "texts" => {
             let path = params["path"].as_str().unwrap();
             let items = std::fs::read_to_string(path)
@@ -42,7 +47,7 @@ fn build_suite(name: &str, params: &Value) -> Box<dyn Suite + Send + Sync> {
                         Value::Array(a) => a.iter().map(|c| char::from_u32(c.as_u64().unwrap() as u32).unwrap()).collect(),
                         _ => panic!("texts line without text"),
                     };
-                    (text, v["wf"].as_bool().unwrap_or(false), v["label"].as_str().map(|s| s.to_string()).unwrap_or(format!("text#{i}")))
+                    (text, v["wf"].as_bool().unwrap_or(false), v["label"].as_str().map(|s| s.to_string()).unwrap_or(format!("text#{i}")), v.get("meta").cloned().unwrap_or(Value::Null))
                 })
                 .collect();
             Box::new(Texts { items })
@@ -172,6 +177,17 @@ fn main() {
                 let _ = writeln!(out, "{}", v);
             });
             let _ = out.flush();
+        }
+        Some("replay") => {
+            // vh replay <kind> <behaviours.ndjson> <mismatches.ndjson>
+            obs::install_panic_hook();
+            let mut out = std::io::BufWriter::new(std::fs::File::create(&args[4]).expect("out file"));
+            let (n, bad) = match args[2].as_str() {
+                "lex" => replay::replay_lex(&args[3], &mut out),
+                k => panic!("unknown replay kind {k}"),
+            };
+            let _ = out.flush();
+            println!("{}", json!({"replayed": n, "mismatches": bad}));
         }
         Some("suite-len") => {
             // vh suite-len <suite> <params-json>
